@@ -684,8 +684,13 @@ def is_permuted_table(table, rtol=default_rtol, atol=default_atol):
 
 
 def is_piecewise_table(table, rtol=default_rtol, atol=default_atol):
-    """Check if table is piecewise."""
-    return all(
+    """Check if table is piecewise.
+
+    A table with a single point says nothing about other points: values
+    derived from it must not be shared with the other quadrature rules of
+    the integral, so it is not classified as piecewise.
+    """
+    return table.shape[2] > 1 and all(
         np.allclose(table[0, :, 0, :], table[0, :, i, :], rtol=rtol, atol=atol)
         for i in range(1, table.shape[2])
     )
